@@ -8,7 +8,8 @@ import VaxisModel.Model.C12Read
 Uses the C01 driver's state for `caps`/`size`/`dict`/`cell`/`showcursor`/`hidecursor` lines, plus:
 
   emucaps <0|1 = COLORTERM is truecolor> \t <17 detected capability bits (order of C07caps)>
-      verdict: nothing is detected that the emulator does not implement
+      verdict: nothing is detected that the emulator does not implement, and sixels / unicodeCore (advertised by
+               DA1 attribute 4 / DECRPM 2027 = 3 in every state) ARE detected
   emurender <grid> \t <emulator snapshot>
       snapshot = curRow;curCol;curStyle;dectcem|row/row/…  with cells ghex:w:fg:bg:ul:uls:attr:link:params
       verdict: the emulator grid equals the application's screen (under the detected capabilities),
@@ -191,9 +192,16 @@ def step (s : St) (line : String) : St × String :=
       -- `ct` = "1": COLORTERM=truecolor in the environment (New() posts `truecolor` itself: C07's `colorterm`)
       let colorterm := ct == ["1"]
       let det := (names.zip (impl.toList.map (· == '1'))).filter (·.2) |>.map (·.1)
+      -- "exactly": nothing is understood that is not implemented, AND what the emulator advertises in its
+      -- replies whatever its state (sixel graphics: DA1 attribute 4; Unicode core: DECRPM 2027 = 3) is understood;
+      -- direct colour is taken from COLORTERM iff it says so
+      let must := ["sixels", "unicodeCore"] ++ (if colorterm then ["rgb"] else [])
       let v := match det.find? (fun n => !implemented.contains n) with
         | some n => s!"FAIL Vaxis understood the emulator's replies as '{n}', which the emulator does not implement"
-        | none => "ok"
+        | none =>
+          match must.find? (fun n => !det.contains n) with
+          | some n => s!"FAIL the emulator implements and advertises '{n}', but Vaxis did not understand its replies that way"
+          | none => "ok"
       if s.qEmu.isNone then (s, s!"chk\tchk\t{v}") else
       -- the model of the exchange: capabilities derived from the modelled replies
       let mcaps := match VaxisModel.Model.C12Replies.capsFrom s.qReplies with
